@@ -31,6 +31,7 @@ def check(run):
     run.attempt(declared, run, p)
     run.attempt(titles, run, p)
     run.attempt(datefmt, run, p)
+    run.attempt(tablegroup, run, p)
     from .common import gotcha_rule
     n = gotcha_rule(run, 'C16-ACCUM', p, ['tdda.serial.pandasio', 'tdda.serial.csvw', 'tdda.serial.reader', 'tdda.serial.base'],
                     'what several columns contribute to one read_csv argument is accumulated, not overwritten or dropped: no '
@@ -226,6 +227,51 @@ def locate(run, p):
         run.ob('C16-LOCATE', '%s::%s::%s' % (rd.rel, rd.short, spec), got_n == '/data/set/data.csv',
                'metadata addressed as %s from %s: the data file is looked for at %r' % (spec, cwd, got), fn=rd)
     run.floor('C16-LOCATE', n, 5)
+
+
+def tablegroup(run, p):
+    """the table that supplies the schema is the table that supplies the data"""
+    import json
+    from ..model import Sym
+    from ..pyeval import Interp, Unsupported, Raised, FakeFS, pure_sys
+    run.rule('C16-TABLEGROUP', 'in a table group the data file comes from the same table as the schema: CSVWMetadata(path, table_number=n) and '
+                               'CSVWMetadata(path, for_table_name=...), constructed by evaluation on an in-memory file system with a metadata '
+                               'file describing two tables (each with its own url and column types), look for the data at the url of the '
+                               'table whose columns they loaded')
+    c = p.cls('CSVWMetadata')
+    meta = json.dumps({'@context': 'http://www.w3.org/ns/csvw', 'tables': [
+        {'url': 'uk.csv', 'tableSchema': {'columns': [{'name': 'a', 'datatype': 'integer'}, {'name': 'when', 'datatype': {'base': 'date', 'format': 'dd/MM/yyyy'}}]}},
+        {'url': 'us.csv', 'tableSchema': {'columns': [{'name': 'a', 'datatype': 'string'}, {'name': 'when', 'datatype': {'base': 'date', 'format': 'MM/dd/yyyy'}}]}}]})
+    n = 0
+    for what, kw, want_url, want_type in (('table_number=0', {'table_number': 0}, 'uk.csv', 'int'), ('table_number=1', {'table_number': 1}, 'us.csv', 'string'),
+                                          ('no table given', {}, 'uk.csv', 'int')):
+        fs = FakeFS({'/data/set/meta.json': meta, '/data/set/uk.csv': 'a,when\n1,02/03/2001\n', '/data/set/us.csv': 'a,when\nx,03/02/2001\n'})
+        I = Interp(p)
+        I.safe_modules = {'json', 're'}
+        I.extra_names.update({'os': fs.os(cwd='/data/set'), 'open': fs.open, 'sys': pure_sys(), 'json': json})
+
+        def hook(m, args, kwargs, selfobj):
+            if m.name in ('warn', 'error') and m.cls is not None:
+                return True, None
+            return False, None
+        I.on_call = hook
+        try:
+            o = I.apply(('#sym', Sym('class', c.qn)), ['/data/set/meta.json'], dict(kw))
+        except Raised as e:
+            n += 1
+            run.ob('C16-TABLEGROUP', '%s::%s::%s' % (c.mod.rel, c.name, what), False, '%s: the constructor raises %s' % (what, e), fn=c.methods['__init__'])
+            continue
+        except Unsupported as e:
+            raise AnalysisError('CSVWMetadata(...) is not evaluable: %s' % e)
+        n += 1
+        got = o.attrs.get('_fullpath')
+        fields = o.attrs.get('fields') or []
+        ftype = fields[0].attrs.get('mtype') if fields and hasattr(fields[0], 'attrs') else None
+        ok = isinstance(got, str) and got.endswith('/' + want_url) and ftype == want_type
+        run.ob('C16-TABLEGROUP', '%s::%s::%s' % (c.mod.rel, c.name, what), ok,
+               '%s: columns of the table with %r first column, data looked for at %r (its own url is %s)' % (what, ftype, got, want_url),
+               fn=c.methods['__init__'])
+    run.floor('C16-TABLEGROUP', n, 3)
 
 
 def dkeys(run, p):
